@@ -1740,9 +1740,14 @@ CONSTRAINT SConstraint
 
 
 def _schema_space(tier):
+    import os
+    if os.environ.get('VERIF_SCHEMA_SPACE'):        # debugging aid: "len,start,alpha;..."
+        return [tuple(int(x) for x in part.split(',')) for part in os.environ['VERIF_SCHEMA_SPACE'].split(';')]
     if tier == 'quick':
-        return [(2, 1, 1), (2, 2, 1), (2, 4, 4), (2, 5, 6), (2, 2, 3), (2, 6, 1), (2, 7, 7), (2, 8, 8), (2, 9, 10), (2, 1, 9)]
-    return [(3, 1, 1), (3, 2, 1), (3, 4, 4), (3, 5, 6), (3, 2, 3), (4, 3, 2), (4, 3, 5), (3, 6, 1), (3, 7, 7), (3, 8, 8), (3, 9, 10), (3, 1, 9)]
+        return [(2, 1, 1), (2, 2, 1), (2, 4, 4), (2, 5, 6), (2, 2, 3), (2, 6, 1), (2, 7, 7), (2, 8, 8), (2, 9, 10), (2, 1, 9),
+                (2, 10, 3)]
+    return [(3, 1, 1), (3, 2, 1), (3, 4, 4), (3, 5, 6), (3, 2, 3), (4, 3, 2), (4, 3, 5), (3, 6, 1), (3, 7, 7), (3, 8, 8), (3, 9, 10), (3, 1, 9),
+            (3, 10, 3)]
 
 
 def _schema_check(prop, tier):
